@@ -39,24 +39,34 @@ ENTRY = {'coq_dir': 'C04',
          'recorded by the harness in the case (z1 z2) and judged by the oracle (every message covered by a completed flush / send_framed, then a '
          'prefix that the backpressure flushes of poll_ready can and must have written). Non-trivial = trace of >= 12 numbers; distinct = distinct '
          '(case, trace) pairs. The corpus witnesses of the six repaired defects (F-C04a..f) and the close-without-flush observation cases are '
-         'replayed first on every run. Scripted failures carry every io::ErrorKind of the table extracted by tools/gen_c04_tables.py '
-         '(corpus/C04/errkinds.case: each of the 20 kinds in a Sink flush, in send_framed under both codecs and on the reading side). (C) kind 30, 7 '
-         'cases in fifty: the tokio-util codecs of src/codec called one method at a time — Identity::new(n) (n in 0 [panics, '
-         'documented],1,2,5,10,48,300,1024,4000), UnsignedVarint::new(None / Some m), with_max_size(m): Encoder::encode and the static encode of '
-         'fitting, too long, too short and empty messages (result and appended bytes), then the wire (plus raw bytes: over-long, non-minimal, '
-         'oversized, truncated prefixes) fed in chunks of 1-3, 1-40, boundary sizes or all at once with `decode` called until None/error after every '
-         'chunk (every result, frame and buffer length), decode_eof, the static decode. kind 31, 2 in fifty: tokio_util::codec::Framed<Substream, '
-         'codec> over the scripted carrier (send / close / next with stalls), outcome. (D) kind 40, 8 in fifty: the real Substream of the TCP or '
-         'WebSocket type over a REAL yamux Connection polled by hand, the remote end played by the harness in raw yamux frames: the case fixes the '
-         'starting window (0,1,2,5,100,1000,16383-16385,40000,256 KiB, more), every window update (size, moment), when the connection task runs and '
-         'an optional RST; operations as in (A); after every operation result, Sink state and the payload the peer holds, at the end the length of '
-         "every data frame and all payload bytes: equal to the model's Yamux.v (credit, 16 KiB split, 11-slot command channel) frame for frame. kind "
-         '41, 4 in fifty: the reading side, the harness sends data frames of chosen sizes, FIN or RST; every poll_next with state. (E) stream '
-         "`extra` (tools/c04_extra_streams.sh, crate harness_c04x built with litep2p's quic+webrtc features; 250 cases quick, 4000 thorough): kind "
-         '50/51 the real webrtc::Substream under substream::Substream, the harness playing the connection side through SubstreamHandle (poll k '
-         'times, FIN_ACK, STOP_SENDING, RESET_STREAM, payload messages of chosen sizes up to over-long ones, bursts of 50-300 messages around the '
-         '256-slot inbound channel), per call; kinds 60-62 the scenario of (B) over the QUIC substream type between two litep2p nodes on the '
-         'loopback interface (12 codec configurations, messages up to 2 MB).',
+         'replayed first on every run. Then, on every tier, a SYSTEMATIC block of ~1000 small cases (sys_partial_cases in harness/src/c04.rs, '
+         'c04y.rs): the carrier takes a strict non-empty part of a queued frame, answers Pending and later takes the rest — Identity(5), '
+         'UnsignedVarint(None) with 3- and 130-byte messages, UnsignedVarint(Some 300 / 20), i.e. one- and two-byte length prefixes, on four paths '
+         '(start_send x2 + poll_flush; send_framed x2; start_send then send_framed; start_send, poll_close, poll_flush), accept sizes 1,2,3,7,50,64 '
+         'with the single Pending after the j-th carrier answer for EVERY j (so every split point of every frame, length prefix included, is '
+         'visited); the backpressure flush of poll_ready on a 66000-byte message cut inside the length prefix and the payload, once and twice; over '
+         'real yamux (kind 40) a window of k bytes for every k of 5- and 6-byte frames and chosen k of a 132-byte one, zero credit inside the frame, '
+         'window updates later. The random write scripts take one of three further styles in 3 of 8 cases in which a Pending follows most accepts. '
+         'The oracle judges the implementation trace from the case alone: after every call the bytes on the carrier must be the first (handed over - '
+         'queued) bytes of the encodings of the accepted messages in call order (a repeated or a missing byte fails), kind 40 additionally queued + '
+         'received <= handed over; the reader must return the messages that are completely on the carrier byte for byte, also when raw bytes follow. '
+         'Scripted failures carry every io::ErrorKind of the table extracted by tools/gen_c04_tables.py (corpus/C04/errkinds.case: each of the 20 '
+         'kinds in a Sink flush, in send_framed under both codecs and on the reading side). (C) kind 30, 7 cases in fifty: the tokio-util codecs of '
+         'src/codec called one method at a time — Identity::new(n) (n in 0 [panics, documented],1,2,5,10,48,300,1024,4000), UnsignedVarint::new(None '
+         '/ Some m), with_max_size(m): Encoder::encode and the static encode of fitting, too long, too short and empty messages (result and appended '
+         'bytes), then the wire (plus raw bytes: over-long, non-minimal, oversized, truncated prefixes) fed in chunks of 1-3, 1-40, boundary sizes '
+         'or all at once with `decode` called until None/error after every chunk (every result, frame and buffer length), decode_eof, the static '
+         'decode. kind 31, 2 in fifty: tokio_util::codec::Framed<Substream, codec> over the scripted carrier (send / close / next with stalls), '
+         'outcome. (D) kind 40, 8 in fifty: the real Substream of the TCP or WebSocket type over a REAL yamux Connection polled by hand, the remote '
+         'end played by the harness in raw yamux frames: the case fixes the starting window (0,1,2,5,100,1000,16383-16385,40000,256 KiB, more), '
+         'every window update (size, moment), when the connection task runs and an optional RST; operations as in (A); after every operation result, '
+         "Sink state and the payload the peer holds, at the end the length of every data frame and all payload bytes: equal to the model's Yamux.v "
+         '(credit, 16 KiB split, 11-slot command channel) frame for frame. kind 41, 4 in fifty: the reading side, the harness sends data frames of '
+         'chosen sizes, FIN or RST; every poll_next with state. (E) stream `extra` (tools/c04_extra_streams.sh, crate harness_c04x built with '
+         "litep2p's quic+webrtc features; 250 cases quick, 4000 thorough): kind 50/51 the real webrtc::Substream under substream::Substream, the "
+         'harness playing the connection side through SubstreamHandle (poll k times, FIN_ACK, STOP_SENDING, RESET_STREAM, payload messages of chosen '
+         'sizes up to over-long ones, bursts of 50-300 messages around the 256-slot inbound channel), per call; kinds 60-62 the scenario of (B) over '
+         'the QUIC substream type between two litep2p nodes on the loopback interface (12 codec configurations, messages up to 2 MB).',
  'trusted_base': ['the scripted carrier of harness/src/c04.rs stands for a transport substream in kinds < 10, 30, 31; next to it the real carriers '
                   'are driven: tcp::Substream / websocket::Substream over a real yamux connection (kinds 10-22, 40, 41), webrtc::Substream (50, 51), '
                   'quic::Substream (60-62)',
